@@ -330,11 +330,11 @@ def _cube(ds, k, fields):
     return {(cc[0], cc[1], cc[2][0]): cc[3] for cc in refmodel.valid_cases(ds, k, fields)}
 
 
-def d_auto(ctx, rng, ds, paths, kind, func="corr"):
+def d_auto(ctx, rng, ds, paths, kind, func="corr", axis=None, simple=True, tag=""):
     c = _c16()
-    axis = rng.choice(["leadtime", "time", "location"])
+    axis = axis or rng.choice(["leadtime", "time", "location"])
     name = "autocorr" if func == "corr" else "autocov"
-    argv = ["-m", name, "-x", axis, "-simple"]
+    argv = ["-m", name, "-x", axis] + (["-simple"] if simple else [])
     fig, case = c.run(ctx, paths, argv, ds)
     if fig is None:
         return
@@ -358,6 +358,12 @@ def d_auto(ctx, rng, ds, paths, kind, func="corr"):
             others = [(l, s[0]) for l in leads for s in locs]
             key = lambda g, o: (g, o[0], o[1])
             dist = lambda a, b: abs(a - b) / 3600.0
+        elif axis in ("lat", "lon", "elev"):
+            grid = locs
+            others = [(t, l) for t in times for l in leads]
+            key = lambda g, o: (o[0], o[1], g[0])
+            ci = {"lat": 1, "lon": 2, "elev": 3}[axis]
+            dist = lambda a, b: abs(a[ci] - b[ci])
         else:
             grid = locs
             others = [(t, l) for t in times for l in leads]
@@ -390,7 +396,40 @@ def d_auto(ctx, rng, ds, paths, kind, func="corr"):
         c.compare_series(ctx, name, "error %s for every pair along %s, input %d" % (func, axis, k), gy, wy, case, 1e-6, 1e-7)
         c.compare_series(ctx, name, "x distance between the pair (%s)" % axis, gx, wx, case, 2e-3, 1e-3)
         distinct = max(distinct, len(set(round(y, 6) for y in gy if y == y)))
-    c.done(ctx, name, argv, kind, F, distinct)
+        if not simple:
+            # the square marker at distance 0: the median over ALL pairs that are no distance apart (a slice with itself, but also
+            # two stations at the same elevation / latitude / longitude or at the same spot)
+            sq = [l for l in fig.lines(0) if l.get_marker() == "s" and len(fig.xy(l)[0]) == 1]
+            zero = [y for x, y in zip(wx, wy) if x == 0]
+            ctx.count("auto_zero_points")
+            ctx.count("auto_zero_pairs_off_diagonal", len(zero) - len(grid))
+            if len(sq) != F:
+                ctx.violation("%s|zero-point-missing" % name, "%d square markers for %d inputs" % (len(sq), F), case)
+            else:
+                zx, zy = fig.xy(sq[k])
+                want0 = NAN if (not zero or any(y != y for y in zero)) else refmetrics.aggregate("median", zero)
+                c.compare_series(ctx, name, "zero-distance marker = median error %s of the pairs at distance 0 (-x %s), input %d"
+                                 % (func, axis, k), zx + zy, [0.0, want0], case, 1e-6, 1e-7)
+    c.done(ctx, name + tag, argv, kind, F, distinct)
+
+
+# groups of three or four stations share a latitude, a longitude or an elevation (so that the pairs at distance 0 that are NOT a
+# station with itself outnumber those that are), and 306 / 307 stand on the same spot
+SHARED_LOCS = [[301, 60.0, 10.0, 100.0], [302, 60.0, 11.0, 250.0], [303, 60.0, 12.0, 100.0], [304, 61.0, 10.0, 250.0],
+               [305, 61.0, 11.0, 100.0], [306, 61.0, 12.0, 250.0], [307, 61.0, 12.0, 250.0]]
+
+
+def d_auto_shared(ctx, rng, ds, paths, kind):
+    """autocorr / autocov along a location-like axis on a network where stations share an elevation, a latitude, a longitude
+    or (306, 307) the position: the complete diagram (no -simple), including the zero-distance marker"""
+    import tempfile
+    F = rng.choice([1, 2])
+    ds2 = gen.make_dataset(rng, n_inputs=F, miss=rng.choice([0.0, 0.05]), sparse=0.0, max_t=8, max_l=3, max_s=7, n_locs=7, same_dims=True,
+                           loc_pool=SHARED_LOCS, fmt="text")
+    d2 = tempfile.mkdtemp(prefix="autoshared", dir=ctx.workdir)
+    paths2, _ = gen.materialize(ds2, d2, None)
+    d_auto(ctx, rng, ds2, paths2, kind, rng.choice(["corr", "cov"]), axis=rng.choice(["elev", "lat", "lon", "elev", "lat", "lon", "location", "leadtime"]),
+           simple=False, tag="-shared")
 
 
 def d_autocorr(ctx, rng, ds, paths, kind):
@@ -853,7 +892,7 @@ def d_fss(ctx, rng, ds, paths, kind):
 
 DIAGRAMS = {"marginal": d_marginal, "invreliability": d_invreliability, "invreliability-auto": d_invreliability_auto, "droc": d_droc, "droc0": d_droc0, "spreadskill": d_spreadskill,
             "murphy": d_murphy, "economicvalue": d_economicvalue, "bsdecomp": d_bsdecomp, "igncontrib": d_igncontrib,
-            "autocorr": d_autocorr, "autocov": d_autocov, "timeseries": d_timeseries, "meteo": d_meteo, "against": d_against,
+            "autocorr": d_autocorr, "autocov": d_autocov, "auto-shared": d_auto_shared, "timeseries": d_timeseries, "meteo": d_meteo, "against": d_against,
             "change": d_change, "map": d_map, "mapimpact": d_mapimpact, "rank": d_rank, "impact": d_impact, "fss": d_fss}
 
 
